@@ -977,7 +977,9 @@ func (e *eventAllower) commonChecks(event PDU) error {
 
 	// Check that all state_keys that begin with '@' are only updated by users
 	// with that ID.
-	if stateKey != nil && len(*stateKey) > 0 && (*stateKey)[0] == '@' {
+	// (m.room.third_party_invite events are allowed if and only if the sender has the invite
+	// level, which was checked above.)
+	if event.Type() != spec.MRoomThirdPartyInvite && stateKey != nil && len(*stateKey) > 0 && (*stateKey)[0] == '@' {
 		if spec.SenderID(*stateKey) != event.SenderID() {
 			return errorf(
 				"sender %q is not allowed to modify the state belonging to %q",
